@@ -319,7 +319,8 @@ def check_spec_forest_writers(ix, rep, rule='R-STORE'):
     one per assertion, in text order) and pastify() (the list of rewritten entries).  Anything else -- a remove() when a sub-specification is
     referenced, an insert at another position, a sort -- changes what the names and the output stand for."""
     n = 0
-    allowed = {('__init__', 'assign'), ('visitAssertion', 'append'), ('pastify', 'assign'), ('parse', 'assign'), ('reset', 'assign')}
+    allowed = {('__init__', 'assign'), ('visitAssertion', 'append'), ('visitAssertion', 'augassign'), ('visitAssertion', 'extend'), ('pastify', 'assign'), ('parse', 'assign'),
+               ('reset', 'assign')}
     for mod in sorted(ix.modules.values(), key=lambda m: m.rel):
         if '/antlr/' in mod.rel or ix.unimportable(mod):
             continue
